@@ -11,6 +11,15 @@ structure CfgOk (c : Cfg) : Prop where
   save_gt  : c.guard < c.saveInterval
   sfx_lt   : c.suffix < 2 ^ c.bits
 
+/-- the window a synchronisation loaded is at least the allocator's own stored window -/
+def coversStored (stored last : Option Nat) : Prop := ∀ S, stored = some S → ∃ L, last = some L ∧ S ≤ L
+
+theorem coversStored_optMax (a b : Option Nat) : coversStored a (optMax a b) := by
+  intro S hS; subst hS
+  cases b with
+  | none => exact ⟨S, rfl, Nat.le_refl _⟩
+  | some y => exact ⟨max S y, rfl, Nat.le_max_left _ _⟩
+
 /-- per-member part of the invariant -/
 structure MemInv (s : St) (m : Nat) : Prop where
   l1 : (s.mems m).lease = true → m ≠ 0
@@ -19,7 +28,7 @@ structure MemInv (s : St) (m : Nat) : Prop where
   c  : s.leader = m → m ≠ 0 →
         ((s.mems m).phys ≠ none ∨ ∃ n sv, (s.mems m).pend = some (.upd n sv)) →
         (s.mems m).lastSaved = s.stored
-  d  : s.leader = m → m ≠ 0 → ∀ last now, (s.mems m).pend = some (.sync last now) → last = s.stored
+  d  : s.leader = m → m ≠ 0 → ∀ last now, (s.mems m).pend = some (.sync last now) → coversStored s.stored last
   p1 : ∀ next sv, (s.mems m).pend = some (.upd next sv) →
         (sv = none → ∃ L, (s.mems m).lastSaved = some L ∧ next + s.cfg.guard < L) ∧
         (∀ v, sv = some v → v = next + s.cfg.saveInterval ∧
@@ -402,6 +411,13 @@ end PdModel.Tso
 
 namespace PdModel.Tso
 
+/-- the invariant does not mention the other allocators' windows -/
+theorem memInv_ext (s : St) (e : Option Nat) (m : Nat) (h : MemInv s m) : MemInv { s with ext := e } m :=
+  ⟨h.l1, h.a, h.b, h.c, h.d, h.p1, h.e⟩
+
+theorem inv_ext (s : St) (e : Option Nat) (h : Inv s) : Inv { s with ext := e } :=
+  ⟨fun m => memInv_ext s e m (h.mem m), ⟨h.gr.f, h.gr.g, h.gr.o⟩, h.uniq⟩
+
 /-- field-wise version of `inv_update_member` -/
 theorem inv_update_member' (s s' : St) (h : Inv s) (m : Nat)
     (hcfg : s'.cfg = s.cfg) (hgr : s'.grants = s.grants)
@@ -412,7 +428,7 @@ theorem inv_update_member' (s s' : St) (h : Inv s) (m : Nat)
     (hlease : (s'.mems m).lease = true → (s.mems m).lease = true)
     (hm : MemInv s' m) : Inv s' := by
   have key : s' = { s with stored := s'.stored, leader := s'.leader,
-                           mems := fun i => if i = m then s'.mems m else s.mems i } := by
+                           mems := fun i => if i = m then s'.mems m else s.mems i, ext := s'.ext } := by
     cases s'; cases s
     simp only at hcfg hgr hmem ⊢
     subst hcfg hgr
@@ -422,8 +438,9 @@ theorem inv_update_member' (s s' : St) (h : Inv s) (m : Nat)
     · simp [hi]
     · simp [hi, hmem i hi]
   rw [key]
-  apply inv_update_member s h m (s'.mems m) s'.stored s'.leader hst hld hlease
-  rw [← key]; exact hm
+  have hm' := memInv_ext s' s.ext m hm
+  rw [key] at hm'
+  exact inv_ext _ s'.ext (inv_update_member s h m (s'.mems m) s'.stored s'.leader hst hld hlease hm')
 
 /-- what the guarded save transaction does -/
 theorem saveTxn_spec (s : St) (m save : Nat) (f : Fault) :
@@ -643,7 +660,7 @@ theorem syncNext_ge (c : Cfg) (l now : Nat) : l + c.guard ≤ syncNext c (some l
   unfold syncNext; simp only; split <;> omega
 
 theorem inv_syncFinish (s : St) (h : Inv s) (hc : CfgOk s.cfg) (m : Nat) (last : Option Nat) (now : Nat)
-    (f : Fault) (hlast : s.leader = m → m ≠ 0 → last = s.stored) :
+    (f : Fault) (hlast : s.leader = m → m ≠ 0 → coversStored s.stored last) :
     Inv (syncFinish s m last now f).1 := by
   unfold syncFinish
   simp only
@@ -657,8 +674,9 @@ theorem inv_syncFinish (s : St) (h : Inv s) (hc : CfgOk s.cfg) (m : Nat) (last :
   have hm := h.mem m
   have hmono : s.leader = m → m ≠ 0 → ∀ S, s.stored = some S → S + s.cfg.guard ≤ next := by
     intro hl h0 S hS
-    have := hlast hl h0; rw [hS] at this; subst this
-    rw [← hnext]; exact syncNext_ge _ _ _
+    obtain ⟨L, hL, hSL⟩ := hlast hl h0 S hS
+    subst hL
+    rw [← hnext]; have := syncNext_ge s.cfg L now; omega
   rcases hspec with ⟨ho, hl, h0, hst, hld, hcfg, hgr, hrec, hoth⟩ | ⟨ho, hl, h0, rfl, _⟩ | ⟨ho, rfl⟩
   · subst ho
     simp only [if_pos]
@@ -937,6 +955,7 @@ theorem inv_step (s : St) (h : Inv s) (hc : CfgOk s.cfg) (op : Op) (hf : op.fait
   | expire m => exact inv_expire s h m
   | resign => exact inv_resign s h
   | dropKey => exact inv_dropKey s h
+  | extWin v => exact inv_ext s _ h
   | getTS m count => exact inv_getTS s h m count
   | tryTS m count =>
     simp only [step]
@@ -984,7 +1003,7 @@ theorem inv_step (s : St) (h : Inv s) (hc : CfgOk s.cfg) (op : Op) (hf : op.fait
     simp only [step]
     split
     · exact h
-    · exact inv_syncFinish s h hc m s.stored now f (fun _ _ => rfl)
+    · exact inv_syncFinish s h hc m _ now f (fun _ _ => coversStored_optMax _ _)
   | gsync m now =>
     simp only [step]
     split
@@ -1001,7 +1020,7 @@ theorem inv_step (s : St) (h : Inv s) (hc : CfgOk s.cfg) (op : Op) (hf : op.fait
         · cases hcnd
       · intro _ _ last nw hp
         simp only [Option.some.injEq, Pend.sync.injEq] at hp
-        exact hp.1.symm
+        rw [← hp.1]; exact coversStored_optMax _ _
       · intro nx sv hp; cases hp
       · exact hm.e
   | finish m f =>
